@@ -283,6 +283,11 @@ fn main() {
     let recs = cat::dtls_records();
     let nrecs = recs.len();
     sink.merge(struct_sweep(&run, &[&DTLS_RECORD], &recs, run.tier.pick(1, 2), &sfx, 48, &extra));
+    for style in [1u8, 3, 4] {
+        use vcommon::en::with_fill_style as wfs;
+        sink.merge(struct_sweep(&run, &[&DTLS_HANDSHAKE], &wfs(style, cat::dtls_handshake_messages), 0, &sfx, 64, &extra));
+        sink.merge(struct_sweep(&run, &[&DTLS_RECORD], &wfs(style, cat::dtls_records), 0, &sfx, 48, &extra));
+    }
     let cookies: Vec<vcommon::en::W> = (0..=255usize)
         .flat_map(|c| {
             [
